@@ -8,6 +8,7 @@
 #include <fcntl.h>
 #include <signal.h>
 #include <sys/resource.h>
+#include <sys/stat.h>
 #include <sys/time.h>
 #include <sys/wait.h>
 #include <time.h>
@@ -97,6 +98,7 @@ static int do_exec(Kind kind, const char *file, char *const argv[], char *const 
     if (c->fds[fd].ofd && c->fds[fd].cloexec) k->fd_close(c, (int) fd);
   snapshot_fds(c, img);
   img->mask = c->mask;
+  img->umask_ = c->umask_;
   for (int s = 1; s <= 64; s++) if (c->disp[s] == D_HANDLER) c->disp[s] = D_DFL;
   memcpy(img->disp, c->disp, sizeof img->disp);
   img->t_ns = k->now_ns;
@@ -406,6 +408,16 @@ int simk_usleep(unsigned us) { struct timespec ts = { (time_t) (us / 1000000), (
 unsigned simk_sleep(unsigned s) { struct timespec ts = { (time_t) s, 0 }; simk_nanosleep(&ts, nullptr); return 0; }
 
 pid_t simk_getpid(void) { return K->curproc()->pid; }
+
+mode_t simk_umask(mode_t m) {
+  Kernel *k = K;
+  k->enter_call(K_getpid);
+  Proc *p = k->curproc();
+  mode_t old = (mode_t) p->umask_;
+  p->umask_ = (unsigned) (m & 0777);
+  k->logrec(K_getpid, 1 /* umask */, (int64_t) m, (int64_t) old, (int64_t) old, 0);
+  return old;
+}
 
 // ---------------------------------------------------------------- allocator
 static void *ledger_add(Kernel *k, void *p, size_t n, Kind kind) {
